@@ -150,6 +150,21 @@ def run(tier: str) -> Run:
                 r3.check(v.unit == UY / UX, f'{cname}: unit', loc(fi), {'unit': repr(v.unit), 'expected': 'u(amplitude)/u(x)'}, key=f'{cname}:unit')
         if terms.get('') != terms.get('pk_'):
             r3.fail(f'{cname}: prefix independence', loc(fi), terms, key=f'{cname}:prefix')
+        # the FWHM of a prefixed model, asked with the full parameter dict of a fit (which also holds the parameters of the
+        # other models, among them an un-prefixed 'scale'), is the one of its own scale
+        T.reset()
+        itf = Interp(repo, Model())
+
+        def fw_go(i, c=cname):
+            own = params_for(i, names, 'pk_')
+            foreign = {'scale': make_param(i, 'other_scale', P(dim='L', unit=UX)), 'loc': make_param(i, 'other_loc', P(dim='L', positive=False, unit=UX)),
+                       'amplitude': make_param(i, 'other_amplitude', P(dim='COUNT', positive=False))}
+            return call_model(repo, i, build(repo, i, c, prefix='pk_'), {**foreign, **own}, method='fwhm')
+        fo = [o for o in itf.run_all(fw_go) if o.kind == 'return']
+        okf = len(fo) == 1 and isinstance(fo[0].value, SVar) and isinstance(fo[0].value.term, Rat) and eq_term(fo[0].value.term, fwhm_closed(S('scale')))
+        r3.check(okf, f'{cname}: fwhm reads its own (prefixed) scale', loc(repo.func(MOD, f'{cname}.fwhm')),
+                 {'fwhm_reported': T.show(fo[0].value.term) if fo and getattr(fo[0].value, 'term', None) is not None else None,
+                  'expected': T.show(fwhm_closed(S('scale')))}, key=f'{cname}:fwhm-prefix')
         # R4 refusals
         for label, mut in (('missing', lambda p, pre: {k: v for k, v in list(p.items())[1:]}),
                            ('unknown', lambda p, pre: {**p, pre + 'bogus': next(iter(p.values()))}),
@@ -229,6 +244,30 @@ def run(tier: str) -> Run:
         ok = eq_term(got, want)
         detail = {'computed': T.show(got)[:300]}
     r6.check(ok, 'polynomial + gaussian', loc(cfi), detail, key='composite')
+    # parts of different precision, both orders: the sum has the promoted dtype of the parts and is never refused
+    for order, left_dtype in (('polynomial + gaussian', 'int64'), ('polynomial + gaussian', 'float32'), ('gaussian + polynomial', 'float32')):
+        T.reset()
+        it = Interp(repo, Model())
+
+        def comp2(i, order=order, left_dtype=left_dtype):
+            bkg = build(repo, i, 'PolynomialModel', degree=1, prefix='bkg_')
+            pk = build(repo, i, 'GaussianModel', prefix='peak_')
+            first, second = (bkg, pk) if order.startswith('poly') else (pk, bkg)
+            model = i.call_function(i.find_method(first.cls, '__add__'), [second], {}, bound=first)
+            peak_dt = left_dtype if not order.startswith('poly') else 'float64'
+            poly_dt = left_dtype if order.startswith('poly') else 'float64'
+            ps = {'peak_amplitude': make_param(i, 'amplitude', P(dim='COUNT', positive=False), dtype=peak_dt),
+                  'peak_loc': make_param(i, 'loc', P(dim='L', positive=False, unit=UX), dtype=peak_dt),
+                  'peak_scale': make_param(i, 'scale', P(dim='L', unit=UX), dtype=peak_dt),
+                  'bkg_a0': make_param(i, 'a0', P(dim='ONE', positive=False, unit=UY / UX), dtype=poly_dt),
+                  'bkg_a1': make_param(i, 'a1', P(dim='ONE', positive=False, unit=UY / UX / UX), dtype=poly_dt)}
+            return call_model(repo, i, model, ps, x_dtype=left_dtype)
+        outs2 = it.run_all(comp2)
+        rets2 = [o for o in outs2 if o.kind == 'return']
+        ok2 = len(outs2) == 1 and len(rets2) == 1 and isinstance(rets2[0].value, SVar) and rets2[0].value.dtype == 'float64'
+        r6.check(ok2, f'{order} with a {left_dtype} left part and x: float64 sum, not refused', loc(cfi),
+                 {'outcomes': [(o.kind, o.exc_type, getattr(o.value, 'dtype', None) if o.kind == 'return' else o.where) for o in outs2]},
+                 key=f'composite-dtype:{order}:{left_dtype}')
     T.reset()
     it = Interp(repo, Model())
 
